@@ -14,7 +14,8 @@ from verif import mesonproc as mp
 # entry: name -> (type, default, choices | None)
 BASE = {'s': ('string', 'sdef', None), 'c': ('combo', 'a', ['a', 'b', 'c']), 'boom': ('boolean', 'false', None),
         'late': ('boolean', 'false', None), 'r': ('string', 'rdef', None),
-        'i': ('integer', '3', (0, 10))}          # integer: the third field is (min, max)
+        'i': ('integer', '3', (0, 10)),          # integer: the third field is (min, max)
+        'use2': ('boolean', 'false', None)}      # true: the build files configure a second subproject, sub2
 
 
 def _variant(**chg):
@@ -41,6 +42,7 @@ SUB_DECL = {'s': ('string', 'subsdef', None), 'c': ('combo', 'a', ['a', 'b', 'c'
 SUB_YIELD = ('s', 'c')
 GLOBAL_BUILTINS = {'warning_level': ('1', ['0', '1', '2', '3', 'everything']),
                    'default_library': ('shared', ['shared', 'static', 'both'])}
+SUB2_DECL = {'o': ('string', 'o2def', None)}   # sub2 is only configured while use2 is true ("late" subproject)
 HIDDEN = ('boom', 'late')   # options whose `true` value makes configuration fail; `late` is not message()d
 
 
@@ -65,12 +67,16 @@ def top_build_text(decl):
             "foreach k : [%s]\n  message('OBS', 'top', k, get_option(k))\nendforeach\n"
             "if get_option('boom')\n  error('boom is set')\nendif\n"
             "subproject('sub')\n"
+            "if get_option('use2')\n  subproject('sub2')\nendif\n"
             "if get_option('late')\n  meson.add_postconf_script('false')\nendif\n") % ', '.join("'%s'" % k for k in names)
 
 
 SUB_BUILD = ("project('sub', meson_version: '>=1.1')\n"
              "foreach k : [%s]\n  message('OBS', 'sub', k, get_option(k))\nendforeach\n"
              % ', '.join("'%s'" % k for k in list(SUB_DECL) + sorted(GLOBAL_BUILTINS)))
+
+
+SUB2_BUILD = "project('sub2', meson_version: '>=1.1')\nmessage('OBS', 'sub2', 'o', get_option('o'))\n"
 
 
 def source_tree(variant, broken=False):
@@ -80,7 +86,9 @@ def source_tree(variant, broken=False):
         opts += "option('x', type: 'string' value 'oops'\n"
     return {'meson.build': top_build_text(decl), 'meson.options': opts,
             'subprojects/sub/meson.build': SUB_BUILD,
-            'subprojects/sub/meson.options': options_text(SUB_DECL, SUB_YIELD)}
+            'subprojects/sub/meson.options': options_text(SUB_DECL, SUB_YIELD),
+            'subprojects/sub2/meson.build': SUB2_BUILD,
+            'subprojects/sub2/meson.options': options_text(SUB2_DECL)}
 
 
 # ------------------------------------------------------------------------------------------------------------------
@@ -110,6 +118,12 @@ ALPHABET = [
     # colliding values: an override equal to the value it overrides (dropping it later changes nothing *now*)
     C('configure -Dsub:warning_level=3 -Dwarning_level=3', 'configure', [('sub:warning_level', '3'), ('warning_level', '3')]),
     C('configure -Dsub:s=t1 -Ds=t1', 'configure', [('sub:s', 't1'), ('s', 't1')]),
+    # the late subproject: enabled by an option; its own option may have been given before it was ever configured
+    C('configure -Duse2=true', 'configure', [('use2', 'true')]),
+    C('configure -Duse2=false', 'configure', [('use2', 'false')], tiers='t'),
+    C('setup --reconfigure -Duse2=true', 'reconfigure', [('use2', 'true')], tiers='t'),
+    C('configure -Dsub2:o=p2', 'configure', [('sub2:o', 'p2')]),
+    C('setup --reconfigure -Dsub2:o=p3', 'reconfigure', [('sub2:o', 'p3')], tiers='t'),
     C('configure -Usub:warning_level', 'configure', U=['sub:warning_level']),
     C('configure -Usub:s', 'configure', U=['sub:s']),
     C('setup -Ds=s2', 'setup', [('s', 's2')], tiers='t'),
@@ -134,6 +148,11 @@ ALPHABET = [
     C('fail edit syntax', 'edit', variant=None, inject='option-file-syntax'),
 ]
 CMD = {c['name']: c for c in ALPHABET}
+# Roots: the fresh `meson setup` every history starts from.  The second one gives a value to an option of the subproject
+# that is not configured yet (meson accepts that only on the first setup: "options for subprojects that were not used").
+# A root other than the plain one is written as the first element of a history.
+ROOTS = [C('ROOT setup', 'root'), C('ROOT setup -Dsub2:o=p1', 'root', [('sub2:o', 'p1')])]
+CMD.update({c['name']: c for c in ROOTS})
 
 
 def argv_of(cmd):
@@ -163,6 +182,8 @@ UNSPECIFIED = [
     '--wipe while cmd_line.txt records a value for an option that no longer exists, or a value the current choice list rejects',
     'exit status of -Usub:k when sub:k has no override (no effect either way; the effect is still checked)',
     '-U of a subproject project option that does not yield; -D/-U of options of an undeclared subproject',
+    'whether -Dsub2:o=v succeeds while sub2 has never been configured in this build directory (meson rejects it as unknown '
+    'except on the first setup): either way is accepted; on failure nothing may move, on success the value counts',
     'meson configure -Dboom=true (setting, without reconfiguring, a value that makes the build files fail): not in the alphabet',
     'the value introspection / meson configure list for yielding or per-subproject-augmented options (DESIGN 7.15): part of the '
     'state key only; get_option() is the ground truth',
@@ -173,6 +194,7 @@ def model_initial(D=()):
     m = {'file': 'base', 'conf': 'base',
          'top': {k: v[1] for k, v in VARIANTS['base'].items()},
          'sub': {'o': SUB_DECL['o'][1]},
+         'sub2': {'o': SUB2_DECL['o'][1]},               # seen by get_option() only while top.use2 is true
          'over': {},                                     # separately set values of yielding subproject options
          'glob': {k: v[0] for k, v in GLOBAL_BUILTINS.items()},
          'aug': {},                                      # per-subproject overrides of builtin options
@@ -197,6 +219,11 @@ def _set(m, key, v):
     decl = VARIANTS[m['conf']]
     if ':' in key:
         sp, name = key.split(':', 1)
+        if sp == 'sub2':
+            assert name in SUB2_DECL
+            m['sub2'][name] = v                         # "the last one the user gave it", whenever that was
+            m['cmd'][key] = v
+            return True
         assert sp == 'sub'
         if name in GLOBAL_BUILTINS:
             if v not in GLOBAL_BUILTINS[name][1]:
@@ -280,6 +307,8 @@ def model_step(m, cmd):
         for k, v in cmd['D']:
             if not _set(m2, k, v):
                 return 'fail', m
+            if k.startswith('sub2:'):
+                expect = 'any'                          # docs silent on an option of a subproject not configured (yet)
         for k in cmd['U']:
             if not _unset(m2, k):
                 expect = 'any'                          # -U without an override: docs silent on the status, no effect
@@ -320,6 +349,8 @@ def model_predict(m):
     for k in SUB_YIELD:
         out['sub.' + k] = m['over'].get(k, m['top'][k])  # "get_option returns the value of the superproject"
     out['sub.o'] = m['sub']['o']
+    if m['top'].get('use2') == 'true':
+        out['sub2.o'] = m['sub2']['o']
     return out
 
 
@@ -402,7 +433,7 @@ def run(argv):
     return RUNNER(argv, WORK)
 
 
-OBS_RE = re.compile(r'Message: OBS (top|sub) (\S+)(?: (.*))?$')      # an empty value may lose its separating blank
+OBS_RE = re.compile(r'Message: OBS (top|sub2?) (\S+)(?: (.*))?$')      # an empty value may lose its separating blank
 
 
 def parse_messages(out):
@@ -533,9 +564,9 @@ def full_step(cmd, files, file_variant):
     return res, snap
 
 
-def initial_state():
+def initial_state(root=None):
     restore(None, 'base')
-    r = run(['setup', '--backend=none', 'b', 'src'])
+    r = run(['setup', '--backend=none', 'b', 'src'] + ['-D%s=%s' % kv for kv in (root['D'] if root else ())])
     res = {'rc': r.rc, 'unhandled': bool(r.unhandled), 'tail': r.out[-900:] if r.rc else '', 'unknown_options': False}
     res['pobs'] = persisted_obs()
     snap = snapshot()
@@ -692,6 +723,8 @@ def judge(m, prev, cmd, res, hist, taint=()):
             J['facts'].append('option-removed')
     if cmd['U'] and m != m2:
         J['facts'].append('override-dropped')
+    if 'sub2.o' in want and 'sub2.o' not in model_predict(m) and m2['sub2']['o'] != SUB2_DECL['o'][1] and 'sub2.o' not in bad:
+        J['facts'].append('late-subproject-got-earlier-value')
     if cmd['kind'] == 'wipe':
         J['facts'].append('wipe-same' if m == m2 else 'wipe-rederived-differently')
     J['m2'] = m2
@@ -719,11 +752,16 @@ def expand(item):
 def run_history(names):
     """Replay a history from a fresh build directory, judging every step (continuing behind known, taintable
     findings exactly as the explorer does).  -> list of (cmd, judgement, res)"""
-    res, files = initial_state()
-    m = model_initial()
+    root = CMD[names[0]] if names and CMD[names[0]]['kind'] == 'root' else None
+    res, files = initial_state(root)
+    m = model_initial(root['D'] if root else ())
     out = [('<initial setup>', {'verdict': 'state', 'm2': m, 'V': []}, res)]
     prev, taint = res, []
+    if root:
+        out.append((names[0], {'verdict': 'state', 'm2': m, 'V': []}, res))
     for i, n in enumerate(names):
+        if i == 0 and root:
+            continue
         cmd = CMD[n]
         res, files2 = full_step(cmd, files, prev['variant'])
         J = judge(m, prev, cmd, res, names[:i], taint)
@@ -778,7 +816,7 @@ def main():
         jobs = 1
         ck.assume('mount namespaces unavailable: transitions executed serially at the fixed path')
     depth = ck.q(3, 5)
-    max_expand = ck.q(220, 1600)            # count-based cap on expanded states (deterministic); frontier reported
+    max_expand = ck.q(220, 1800)            # count-based cap on expanded states (deterministic); frontier reported
     tier_letter = 't' if ck.thorough else 'q'
     alphabet = [c['name'] for c in ALPHABET if tier_letter in c['tiers']]
 
@@ -797,6 +835,16 @@ def main():
     states[(model_key(m0), '', real_key(res0))] = s0
     by_model[(model_key(m0), '')] = ([], real_key(res0))
     level = [s0]
+    for root in ROOTS[1:]:
+        resr, filesr = initial_state(root)
+        mr = model_initial(root['D'])
+        ck.require(resr['rc'] == 0 and resr['obs']['rc'] == 0, '%s failed: %s' % (root['name'], resr['tail'] + resr['obs']['tail']))
+        ck.require(resr['obs']['msgs'] == model_predict(mr) and resr['pobs']['cmdline'] == mr['cmd'],
+                   '%s: observation %r / %r' % (root['name'], resr['obs']['msgs'], resr['pobs']['cmdline']))
+        sr = mk_state(mr, resr, zlib.compress(pickle.dumps(filesr), 1), [root['name']], [])
+        states[(model_key(mr), '', real_key(resr))] = sr
+        by_model[(model_key(mr), '')] = ([root['name']], real_key(resr))
+        level.append(sr)
     n_trans = n_unspec = n_selfloop = n_merged = n_diff = n_pruned_viol = n_tainted_cont = 0
     unspec_reasons, per_kind, facts = {}, {}, {}
     edge_classes, fail_classes = set(), set()
@@ -923,7 +971,7 @@ def main():
         ck.require({'invalid-value', 'error()', 'option-file-syntax'} <= fail_classes, 'an injected failure class never failed: %r' % sorted(fail_classes))
         ck.require({'ok:wipe', 'ok:edit', 'ok:configure', 'ok:reconfigure', 'ok:setup'} <= edge_classes, 'edge classes %r' % sorted(edge_classes))
         for f in ('choices-fallback', 'choices-kept', 'option-added', 'option-removed', 'default-changed-value-kept', 'override-dropped',
-                  'wipe-same'):
+                  'wipe-same', 'late-subproject-got-earlier-value'):
             ck.require(facts.get(f, 0) > 0, 'clause never exercised: ' + f)
         if levels_done >= 3:
             ck.require(facts.get('wipe-rederived-differently', 0) > 0, 'no --wipe that changed the configuration (new default picked up)')
